@@ -107,6 +107,7 @@ def run(chk):
     chk.section("instantiator-leaves", lambda: s2(chk))
     chk.section("instantiate_partial", lambda: s3(chk))
     chk.section("compile_variable_idx", lambda: s4(chk))
+    chk.section("method-parameters", lambda: s5(chk))
     chk.expected_min_obligations = 60
     chk.assumptions += [
         "parameter lists of length <= 3 and instantiations of length <= 3 are enumerated (list lengths are a bound; the leaves substituted are arbitrary objects, de Bruijn indices in S2/S4 are symbolic)",
@@ -491,3 +492,83 @@ def s4(chk):
                         paths, post, func=f"{CC}:compile_variable_idx")
     chk.must_fail("twin:mono-flags-free", [], z3.Bool("mono0"))
     chk.use_engine(e)
+
+
+def s5(chk):
+    """S5 — handle_implicit_self_arg (checker/func_checker.py): a method of a generic struct with an
+    un-annotated `self` inherits the struct's k parameters IN FRONT of its own m parameters; the
+    resulting parameter list must again be a de Bruijn telescope: inherited parameter i keeps
+    index i, own parameter j moves to index k + j, all indices are distinct and dense, and `self`
+    is the struct instantiated with its own parameters in order.  Every occurrence in the method's
+    signature is resolved through this table, so a wrong index makes instantiation substitute the
+    wrong argument.  All k, m in 0..3."""
+    FC = "guppylang_internals.checker.func_checker"
+    e = mk_engine(chk)
+    e.func_info(FC, "handle_implicit_self_arg")
+    m_ = e.module(FC)
+    P = ClassVal("Parameter", builtin=True)
+
+    def mk_param(name, idx, log):
+        def with_idx(i):
+            log.append(("with_idx", name, i))
+            return mk_param(name, i, log)
+        return SObj(P, {"name": name, "idx": idx, "with_idx": Builtin("with_idx", with_idx), "to_bound": Builtin("to_bound", lambda: ("BOUND", name, idx))})
+    e.models["guppylang_internals.tys.parsing:check_function_arg"] = lambda it, a, k: ("FUNC-INPUT", a[0], a[1])
+    for k in range(4):
+        for m in range(4):
+            def t(it, k=k, m=m):
+                log = []
+                inherited = [mk_param(f"T{i}", i, log) for i in range(k)]
+                own = {f"U{j}": mk_param(f"U{j}", j, log) for j in range(m)}
+                defn = SObj(ClassVal("TypeDef", builtin=True), {"params": inherited, "name": "Box"})
+                defn.fields["check_instantiate"] = Builtin("check_instantiate", lambda args, loc=None: ("SELF-TY", list(args)))
+                ctx = SObj(ClassVal("TypeParsingCtx", builtin=True), {"param_var_mapping": own, "self_ty": None})
+                arg = SObj(ClassVal("arg", builtin=True), {"arg": "self", "annotation": None})
+                r = it.call(it.lookup_global(m_, "handle_implicit_self_arg"), [arg, defn, ctx], {})
+                return r, own, inherited
+
+            def post(p, k=k, m=m):
+                if p.kind != "return":
+                    return z3.BoolVal(False)
+                r, mapping, inherited = p.value
+                idx = {n: v.fields["idx"] for n, v in mapping.items()}
+                want = {**{f"T{i}": i for i in range(k)}, **{f"U{j}": k + j for j in range(m)}}
+                ok = idx == want and sorted(idx.values()) == list(range(k + m)) and all(mapping[f"T{i}"] is inherited[i] for i in range(k))
+                ok = ok and r[0] == "FUNC-INPUT" and r[1] == ("SELF-TY", [("BOUND", f"T{i}", i) for i in range(k)])
+                return z3.BoolVal(ok)
+            chk.prove_paths(f"handle_implicit_self_arg[struct-params={k},method-params={m}]:inherited-keep-0..k-1/\\own-move-to-k+j/\\indices-dense-and-distinct/\\self==struct[own-params-in-order]", e.explore(t), post,
+                            func=f"{FC}:handle_implicit_self_arg", replay=(lambda m__: {"script": REPLAY_METHOD, "input": {}}) if (k, m) in ((2, 1), (1, 2)) else None)
+    chk.use_engine(e)
+
+
+REPLAY_METHOD = r'''
+import tempfile, importlib.util, os, sys, shutil
+src = """from guppylang import guppy
+from guppylang.std.builtins import nat, result, array
+@guppy.struct
+class Box[T, n: nat]:
+    v: T
+    @guppy
+    def pair[U](self, other: U) -> tuple[T, U]:
+        return self.v, other
+@guppy
+def main() -> None:
+    b: Box[int, 3] = Box(3)
+    x, y = b.pair(2.5)
+    result("v", x)
+    result("o", y)
+"""
+d = tempfile.mkdtemp(dir=os.environ.get("TMPDIR", "/var/tmp")); fn = os.path.join(d, "replay_c13m.py"); open(fn, "w").write(src)
+spec = importlib.util.spec_from_file_location("replay_c13m", fn); m = importlib.util.module_from_spec(spec); sys.modules["replay_c13m"] = m
+try:
+    spec.loader.exec_module(m)
+    try:
+        got = [list(x) for x in list(m.main.emulator(n_qubits=1).run().results)[0].entries]
+        out = {"violates": got != [["v", 3], ["o", 2.5]], "observed": got, "required": [["v", 3], ["o", 2.5]]}
+    except AssertionError as ex:
+        out = {"violates": True, "observed": "AssertionError during instantiation " + repr(ex)[:100], "required": "compiles like the hand-specialised copy"}
+except Exception as ex:
+    out = {"violates": False, "error": repr(ex)[:300]}
+shutil.rmtree(d, ignore_errors=True)
+print(json.dumps(out))
+'''
